@@ -9,6 +9,7 @@ run, so CPython binds positional/keyword arguments as it would for the real call
    imf_opts / envelope_opts / extrema_opts (and sift_thresh, max_imfs, noise_mode where they apply), on every path and
    for an arbitrary loop iteration (loops cut with a trivial invariant);
    get_next_imf -> interp_envelope : envelope_opts entries and extrema_opts on both the upper and the lower call;
+   get_next_imf -> sd_stop / rilling_stop / fixed_stop : the supplied threshold(s), entry by entry, and the iteration count;
    interp_envelope -> get_padded_extrema : every entry of extrema_opts;
    get_padded_extrema -> _find_extrema / np.pad : parabolic flag; location / magnitude padding options and pad width on every padding round.
 multiprocessing.Pool.starmap is the assumed contract [f(*a) for a in args] (real functools.partial is used).
@@ -232,7 +233,7 @@ def units(tier):
     for rule in ('sd', 'rilling', 'fixed'):
         def mk_gni(c, rule=rule):
             I_, E_, X_ = c.ghost['tok']
-            return (_sig(c),), dict(stop_method=rule, max_iters=7, envelope_opts=E_, extrema_opts=X_)
+            return (_sig(c),), dict(stop_method=rule, max_iters=7, sd_thresh=0.37, rilling_thresh=(0.04, 0.4, 0.011), env_step_size=0.75, envelope_opts=E_, extrema_opts=X_)
 
         def ns_gni(c):
             I_, E_, X_ = c.ghost['tok']
@@ -248,12 +249,24 @@ def units(tier):
                     return SArr((b['X'].shape_e[0],), lambda i: f(i), 'f')
                 return None
 
-            def stop2(*a, **k):
-                return SBool(core.C().fresh('stop', B)), None
+            # the stopping rules receive the thresholds the caller supplied (distinct token values), each in its own slot
+            def h_sd(b):
+                c2 = core.C()
+                _obl(c2, 'get_next_imf->sd_stop:sd_thresh-forwarded', b['sd'] == 0.37, 'received sd=%r' % (b['sd'],))
+                return SBool(c2.fresh('stop', B)), None
 
-            def stop1(*a, **k):
-                return SBool(core.C().fresh('stop', B))
-            return {'interp_envelope': sig_stub(SIFT, 'interp_envelope', h, ES), 'sd_stop': stop2, 'rilling_stop': stop2, 'fixed_stop': stop1,
+            def h_rill(b):
+                c2 = core.C()
+                got = (b['sd1'], b['sd2'], b['tol'])
+                _obl(c2, 'get_next_imf->rilling_stop:rilling_thresh-forwarded-entry-by-entry', got == (0.04, 0.4, 0.011), 'received (sd1, sd2, tol)=%r' % (got,))
+                return SBool(c2.fresh('stop', B)), None
+
+            def h_fixed(b):
+                c2 = core.C()
+                _obl(c2, 'get_next_imf->fixed_stop:max_iters-forwarded', b['max_iters'] == 7, 'received max_iters=%r' % (b['max_iters'],))
+                return SBool(c2.fresh('stop', B))
+            return {'interp_envelope': sig_stub(SIFT, 'interp_envelope', h, ES), 'sd_stop': sig_stub(SIFT, 'sd_stop', h_sd, ES),
+                    'rilling_stop': sig_stub(SIFT, 'rilling_stop', h_rill, ES), 'fixed_stop': sig_stub(SIFT, 'fixed_stop', h_fixed, ES),
                     'EMDSiftCovergeError': ES.EMDSiftCovergeError}
         add('get_next_imf[%s]' % rule, 'get_next_imf', mk_gni, ns_gni, loops={0: _trivial_loop()}, raises={ES.EMDSiftCovergeError: lambda c, a, kw, ex: None})
 
@@ -478,7 +491,7 @@ def trace_call(variant, opts, route, nprocesses):
     import tempfile
     fd_, logpath = tempfile.mkstemp(prefix='c06trace', dir=os.environ.get('TMPDIR', '/tmp'))
     os.close(fd_)
-    real = {n: getattr(S, n) for n in ('get_next_imf', 'interp_envelope', 'get_padded_extrema')}
+    real = {n: getattr(S, n) for n in ('get_next_imf', 'interp_envelope', 'get_padded_extrema', 'sd_stop', 'rilling_stop', 'fixed_stop')}
 
     def mkwrap(name, f):
         @functools.wraps(f)
@@ -486,7 +499,7 @@ def trace_call(variant, opts, route, nprocesses):
             import inspect
             ba = inspect.signature(f).bind(*a, **k)
             ba.apply_defaults()
-            eff = {kk: vv for kk, vv in ba.arguments.items() if kk != 'X'}
+            eff = {kk: vv for kk, vv in ba.arguments.items() if kk != 'X' and not isinstance(vv, np.ndarray)}
             # one O_APPEND write per record: atomic across the forked workers and never blocks (a pipe / queue would fill up)
             with open(logpath, 'a') as fh:
                 fh.write(name + '\t' + repr(eff).replace('\n', ' ') + '\n')
@@ -553,7 +566,7 @@ def trace_call(variant, opts, route, nprocesses):
 
 
 OPTS_GRID = [
-    {'imf_opts': {'env_step_size': 0.5, 'stop_method': 'rilling', 'rilling_thresh': (0.06, 0.6, 0.06)}, 'envelope_opts': {'interp_method': 'mono_pchip'},
+    {'imf_opts': {'env_step_size': 0.5, 'stop_method': 'rilling', 'rilling_thresh': (0.06, 0.6, 0.021)}, 'envelope_opts': {'interp_method': 'mono_pchip'},
      'extrema_opts': {'pad_width': 3, 'parabolic_extrema': True}},
     {'imf_opts': {'stop_method': 'fixed', 'max_iters': 3}, 'envelope_opts': {'interp_method': 'pchip'},
      'extrema_opts': {'pad_width': 4, 'loc_pad_opts': {'mode': 'reflect', 'reflect_type': 'odd'}, 'mag_pad_opts': {'mode': 'mean', 'stat_length': 2}}},
@@ -565,9 +578,24 @@ def check_trace(recs, opts):
     """every call of every stage must carry the supplied options"""
     import ast as _ast
     bad = []
-    seen = {'get_next_imf': 0, 'interp_envelope': 0, 'get_padded_extrema': 0}
+    seen = {'get_next_imf': 0, 'interp_envelope': 0, 'get_padded_extrema': 0, 'sd_stop': 0, 'rilling_stop': 0, 'fixed_stop': 0}
+    io = opts['imf_opts']
     for stage, rep in recs:
         seen[stage] += 1
+        if stage == 'rilling_stop':
+            th = io.get('rilling_thresh', (0.05, 0.5, 0.05))
+            for k, v in zip(('sd1', 'sd2', 'tol'), th):
+                if ("'%s': %r" % (k, v)) not in rep:
+                    bad.append('rilling_stop ran with %s != %r (rilling_thresh=%r)' % (k, v, tuple(th)))
+            continue
+        if stage == 'sd_stop':
+            if ("'sd': %r" % io.get('sd_thresh', 0.1)) not in rep:
+                bad.append('sd_stop ran with sd != %r' % io.get('sd_thresh', 0.1))
+            continue
+        if stage == 'fixed_stop':
+            if ("'max_iters': %r" % io.get('max_iters', 1000)) not in rep:
+                bad.append('fixed_stop ran with max_iters != %r' % io.get('max_iters', 1000))
+            continue
         if stage == 'get_next_imf':
             for k, v in opts['imf_opts'].items():
                 if ("'%s': %r" % (k, v)) not in rep:
@@ -587,8 +615,11 @@ def check_trace(recs, opts):
             for k, v in opts['extrema_opts'].items():
                 if ("'%s': %r" % (k, v)) not in rep:
                     bad.append('get_padded_extrema ran with %s != %r' % (k, v))
-    if not all(seen.values()):
+    rule = {'sd': 'sd_stop', 'rilling': 'rilling_stop', 'fixed': 'fixed_stop'}[io.get('stop_method', 'sd')]
+    if not all(seen[k] for k in ('get_next_imf', 'interp_envelope', 'get_padded_extrema', rule)):
         bad.append('a stage was never reached: %s' % seen)
+    if any(seen[k] for k in ('sd_stop', 'rilling_stop', 'fixed_stop') if k != rule):
+        bad.append('a stopping rule other than the requested %r ran: %s' % (io.get('stop_method', 'sd'), seen))
     return sorted(set(bad))
 
 
